@@ -278,7 +278,9 @@ func TestC13(t *testing.T) {
 			ev.Violation(t, "C13", rp, "ResponseCode()=%d, dnsmessage extended RCODE=%d", rc, x.ExtRCode)
 		}
 		sum := sha256.Sum256(pkt)
-		rec.Case(hx(sum[:8]), nrr > 0, cl, func() any { return map[string]any{"direction": "foreign", "compressed": hasPtr, "message": dnsfx.Canon(want), "bytes": len(pkt)} })
+		rec.Case(hx(sum[:8]), nrr > 0, cl, func() any {
+			return map[string]any{"direction": "foreign", "compressed": hasPtr, "message": dnsfx.Canon(want), "bytes": len(pkt)}
+		})
 	})
 }
 
@@ -306,4 +308,6 @@ func firstDiff(a, b string) string {
 	return "(no difference)"
 }
 
-func dnsmessageHeader() dnsmessage.Header { return dnsmessage.Header{Response: true, RecursionAvailable: true} }
+func dnsmessageHeader() dnsmessage.Header {
+	return dnsmessage.Header{Response: true, RecursionAvailable: true}
+}
